@@ -104,14 +104,14 @@ func (m *cuckooRedis) Exec(op Tok) (opOut Tok, obs Tok) {
 		}
 		opOut = TL(a[0], a[1], a[2], a[3], TBool(coin), TListU(draws))
 		rand.Seed(seed)
-		ok := f.Insert(a[2].B, a[3].U() != 0)
+		ok := f.Insert(el(a[2].B), a[3].U() != 0)
 		return opOut, TL(TOk(TBool(ok)), TBool(evict))
 	case ckLookup:
 		f := m.inst[a[1].I()]
 		if f == nil {
 			return opOut, inv
 		}
-		ok, err := f.Lookup(a[2].B)
+		ok, err := f.Lookup(el(a[2].B))
 		if err != nil {
 			return opOut, TErr(errGeneric)
 		}
@@ -121,7 +121,7 @@ func (m *cuckooRedis) Exec(op Tok) (opOut Tok, obs Tok) {
 		if f == nil {
 			return opOut, inv
 		}
-		ok, err := f.Remove(a[2].B)
+		ok, err := f.Remove(el(a[2].B))
 		if err != nil {
 			return opOut, TErr(errGeneric)
 		}
